@@ -69,7 +69,11 @@ def obligations(tier):
     shared = [(("SMA", dict(period=2)), ("EMA", dict(period=2))), (("EMA", dict(period=2)), ("SMA", dict(period=2))), (("ATR", dict(period=2)), ("BBANDS", dict(period=2))),
               (("MACD", dict(fast_period=2, slow_period=3, signal_period=2)), ("WMA", dict(period=2))), (("VWAP", dict()), ("TR", dict()))]
     for (a, akw), (b, bkw) in shared:
-        for tfa, tfb in (("T2", "T2"), ("T2", "T3"), (None, "T2")):
+        # the same timeframe may be spelled in upper case, lower case or as a TimeFrame member
+        spellings = (("T2", "T2"), ("T2", "T3"), (None, "T2"))
+        if (a, b) in (("SMA", "EMA"), ("ATR", "BBANDS")):
+            spellings += (("T2", "t2"), ("t2", "T2"), ("T1", "enum:MINUTE"), ("enum:MINUTE", "T1"), ("enum:MINUTE", "enum:MINUTE"))
+        for tfa, tfb in spellings:
             n = 7
             obs.append(Ob(f"shared-timeframe {tfa}/{tfb}: A={spec_name(('ind', a, akw))} B={spec_name(('ind', b, bkw))}/n={n}",
                           dict(A=[a, dict(akw, **({"timeframe": tfa} if tfa else {}))], B=[b, dict(bkw, **({"timeframe": tfb} if tfb else {}))], n=n), CFG, weight=60, budget_s=900))
